@@ -4,6 +4,8 @@
 //! Stand-ins: `tracing`, `lru` (fixed-slot), `vcoll`.
 //! @needs: socket routing_table put_query iterative_query
 use super::*;
+#[allow(unused_imports)]
+use crate::verif_env::k as kani;
 use crate::common::{
     AnnouncePeerRequestArguments, FindNodeRequestArguments, GetPeersRequestArguments, GetValueRequestArguments,
     Message, MessageType, PingResponseArguments, PutImmutableRequestArguments, PutRequest, RequestSpecific, ResponseSpecific,
